@@ -136,6 +136,9 @@ pub struct E2Spec<'a> {
 /// Engine E2: build the corpus, run the property inside it, collect the report.
 pub fn e2_run(ctx: &Ctx, spec: E2Spec) -> Outcome {
     let mut out = Outcome { rule: spec.rule.to_string(), assumptions: spec.assumptions.clone(), ..Default::default() };
+    if spec.programs.is_empty() {
+        return out;
+    }
     let corpus_name = if ctx.replay.is_some() {
         format!("replay_{}", spec.family)
     } else {
@@ -311,13 +314,18 @@ pub fn msg_opts_s1() -> GenOpts {
 /// Programs for a replay: the single program stored in the replay file.
 pub fn replay_programs(ctx: &Ctx) -> Option<Vec<Program>> {
     let path = ctx.replay.as_ref()?;
-    let v: Value = serde_json::from_str(&std::fs::read_to_string(path).ok()?).ok()?;
+    // a replay file that is not one of our JSON records (e.g. a fuzz artifact) selects no program
+    let Some(v) = std::fs::read(path).ok().and_then(|b| serde_json::from_slice::<Value>(&b).ok()) else {
+        return Some(vec![]);
+    };
     if v["program"] == "runtime" || v["engine"] == "E1" {
         // not a program replay: run nothing program-specific
         return Some(vec![]);
     }
-    let p: Program = serde_json::from_value(v["model"].clone()).ok()?;
-    Some(vec![p])
+    match serde_json::from_value::<Program>(v["model"].clone()) {
+        Ok(p) => Some(vec![p]),
+        Err(_) => Some(vec![]),
+    }
 }
 
 const A_SERDE: &str = "typed argument values are obtained from model JSON through each argument type's own serde impl (cosmwasm-std / svrt types), not through sylvia-generated code";
@@ -333,6 +341,97 @@ fn msg_family(ctx: &Ctx, s2: bool, family: &'static str, rule: &'static str, ass
     e2_run(ctx, E2Spec { exe_prop: None, family, programs, cases, rule, assumptions: assumptions.iter().map(|s| s.to_string()).collect(), alias: None })
 }
 
+/// Engine E5: a bounded libFuzzer campaign over a hand-written fixture (thorough tier only).
+/// The semantic oracle lives inside the target; a crash artifact is the replay file.
+pub fn fuzz_campaign(ctx: &Ctx, target: &str, runs: u64, out: &mut Outcome) {
+    let fuzz_dir = format!("{}/engine/fuzz", corpus::VERIF);
+    let tdir = corpus::target_dir("fuzz");
+    // replay of a saved artifact
+    if let Some(r) = &ctx.replay {
+        let name = r.file_name().map(|n| n.to_string_lossy().to_string()).unwrap_or_default();
+        if !name.starts_with(&format!("fuzz-{target}-")) {
+            return;
+        }
+        let mut cmd = Command::new("cargo");
+        cmd.args(["+nightly", "fuzz", "run", "--fuzz-dir", &fuzz_dir, "--target-dir"]).arg(&tdir).arg(target).arg(r).env("CARGO_NET_OFFLINE", "true").env("RUST_BACKTRACE", "0");
+        match run_with_timeout(cmd, 1800) {
+            Some(o) if o.status.success() => {}
+            Some(_) => out.violations.push((format!("fuzz:{target}"), format!("fuzz target {target} fails on the saved input"), r.clone())),
+            None => out.inconclusive = Some("fuzz replay timed out".into()),
+        }
+        out.evaluations += 1;
+        return;
+    }
+    let corpus_dir = Path::new(corpus::VERIF).join("work").join("fuzz_corpus").join(format!("{target}-{}", ctx.seed));
+    let _ = std::fs::remove_dir_all(&corpus_dir);
+    std::fs::create_dir_all(&corpus_dir).unwrap();
+    let seeds = Path::new(&fuzz_dir).join("seeds").join(target);
+    if let Ok(rd) = std::fs::read_dir(&seeds) {
+        for e in rd.flatten() {
+            let _ = std::fs::copy(e.path(), corpus_dir.join(e.file_name()));
+        }
+    }
+    let prefix = format!("{}/fuzz-{target}-", ctx.replay_dir().display());
+    let mut cmd = Command::new("cargo");
+    cmd.args(["+nightly", "fuzz", "run", "--fuzz-dir", &fuzz_dir, "--target-dir"])
+        .arg(&tdir)
+        .arg(target)
+        .arg(&corpus_dir)
+        .arg("--")
+        .arg(format!("-runs={runs}"))
+        .arg(format!("-seed={}", (ctx.seed % 0x7fff_ffff).max(1)))
+        .arg("-len_control=0")
+        .arg("-max_len=512")
+        .arg("-timeout=30")
+        .arg(format!("-artifact_prefix={prefix}"))
+        .env("CARGO_NET_OFFLINE", "true")
+        .env("RUST_BACKTRACE", "0");
+    let Some(o) = run_with_timeout(cmd, 3 * 3600) else {
+        out.inconclusive = Some(format!("fuzz campaign {target} hit the watchdog (inconclusive, not a violation)"));
+        return;
+    };
+    let err = String::from_utf8_lossy(&o.stderr).to_string();
+    let done = err.lines().rev().find(|l| l.contains("DONE") || l.contains("cov:")).unwrap_or("").to_string();
+    let mut info = serde_json::Map::new();
+    info.insert("target".into(), json!(target));
+    info.insert("runs_requested".into(), json!(runs));
+    info.insert("last_status_line".into(), json!(done.trim()));
+    let mut fuzz = out.extra.get("fuzz_campaigns").cloned().unwrap_or(json!([]));
+    if o.status.success() {
+        out.evaluations += runs;
+        fuzz.as_array_mut().unwrap().push(Value::Object(info));
+        out.extra.insert("fuzz_campaigns".into(), fuzz);
+        return;
+    }
+    // crash / oracle failure: find the artifact
+    let artifact = err
+        .lines()
+        .find_map(|l| l.split("Test unit written to ").nth(1).map(|p| p.trim().to_string()));
+    let msg = err.lines().find(|l| l.contains("violated") || l.contains("panicked at")).unwrap_or("fuzz target failed").chars().take(400).collect::<String>();
+    match artifact {
+        Some(a) => out.violations.push((format!("fuzz:{target}"), msg, PathBuf::from(a))),
+        None => {
+            if err.contains("error: could not compile") || err.contains("failed to build") {
+                out.inconclusive = Some(format!("fuzz target {target} does not build: {}", err.lines().filter(|l| l.starts_with("error")).take(3).collect::<Vec<_>>().join(" | ")));
+            } else {
+                out.inconclusive = Some(format!("fuzz target {target} exited abnormally without an artifact: {}", err.lines().rev().take(5).collect::<Vec<_>>().join(" | ")));
+            }
+        }
+    }
+    info.insert("failed".into(), json!(true));
+    fuzz.as_array_mut().unwrap().push(Value::Object(info));
+    out.extra.insert("fuzz_campaigns".into(), fuzz);
+}
+
+fn with_fuzz(ctx: &Ctx, mut out: Outcome, target: &str, note: &str) -> Outcome {
+    if !ctx.quick() || ctx.replay.is_some() {
+        let runs = 2_000_000;
+        fuzz_campaign(ctx, target, runs, &mut out);
+        out.rule.push_str(&format!(" || (E5, thorough tier) coverage-guided libFuzzer campaign `{target}` of {runs} runs over a hand-written fixture contract with the semantic oracle inside the target: {note}"));
+    }
+    out
+}
+
 /// Runtime-only properties (engine E4) run once inside the small `warm` corpus binary.
 fn runtime_prop(ctx: &Ctx, exe_prop: &'static str, rule: &'static str, assumptions: &[&str]) -> Outcome {
     let programs = crate::fam_msg(1, 2, &GenOpts::default());
@@ -340,7 +439,7 @@ fn runtime_prop(ctx: &Ctx, exe_prop: &'static str, rule: &'static str, assumptio
     let mut c2 = Ctx { prop: ctx.prop.clone(), tier: ctx.tier.clone(), seed: ctx.seed, replay: ctx.replay.clone(), known: ctx.known.clone(), t0: ctx.t0 };
     if let Some(r) = &ctx.replay {
         // runtime replays carry no program: only pass them on when they belong to this runtime property
-        let v: Value = serde_json::from_str(&std::fs::read_to_string(r).unwrap_or_default()).unwrap_or(Value::Null);
+        let v: Value = std::fs::read(r).ok().and_then(|b| serde_json::from_slice(&b).ok()).unwrap_or(Value::Null);
         if v["program"] != "runtime" {
             c2.replay = None;
             return Outcome { rule: rule.to_string(), ..Default::default() };
@@ -421,9 +520,9 @@ pub fn run(ctx: &Ctx) -> i32 {
         "C02" => msg_family(ctx, false, "fam_msg_s1",
             "fam_msg programs with echo handlers; per handler `cases` tuples (argument values, env, sender/funds, storage/api/querier nonces, ok/fail outcome); message dispatched on the part type and through the contract-level wrapper; oracle = call log == [that handler] once with equal args/env/info and nonce probes, caller's response / error / query payload equal to the handler's own. Non-trivial = two same-typed arguments, a same-signature sibling handler, or the failing outcome.",
             &[A_ECHO, A_SERDE, A_NATIVE, A_DOMAIN, "mock storage/api/querier stand in for the chain"]),
-        "C03" => msg_family(ctx, true, "fam_msg_s2",
+        "C03" => with_fuzz(ctx, msg_family(ctx, true, "fam_msg_s2",
             "fam_msg programs with S2 method names (digits inside words, digit-only words, leading/doubled underscores); per kind `cases` documents: well-formed messages of every part and 12 classes of malformed documents derived from them (as text, incl. duplicate keys); differential oracle: wrapper accepts iff exactly one part accepts, same value, same re-encoding, same handler reached, never panics, unknown-name errors list every supported name. Non-trivial = malformed document or a name with a letter/digit boundary or leading/doubled underscore.",
-            &[A_ECHO, A_NATIVE, A_DOMAIN, "the oracle never predicts a wire name: it compares the wrapper with the parts (names observed by serialising each variant)", "programs do not forward serde(rename) attributes"]),
+            &[A_ECHO, A_NATIVE, A_DOMAIN, "the oracle never predicts a wire name: it compares the wrapper with the parts (names observed by serialising each variant)", "programs do not forward serde(rename) attributes"]), "fz_wrapper", "bytes -> JSON document from a name dictionary + structural mutations (or raw bytes) -> wrapper accepts iff exactly one part accepts, same re-encoding, exactly one handler runs, no panic; documents with duplicate keys are tolerated (recorded finding)."),
         "C04" => msg_family(ctx, true, "fam_msg_s2",
             "fam_msg programs in which names (and often argument lists) are shared between kinds of different parts; for every handler of kind K1 `cases` well-formed K1 documents are sent to the entry point of a different kind K2 (generated entry_points::<k2> and the cw_multi_test::Contract impl); invariant: decoding fails or every handler in the call log is annotated K2. Non-trivial = the K2 entry point accepted the document and ran a handler.",
             &[A_ECHO, A_NATIVE, A_DOMAIN, "reply entry points are covered by the reply family (C07)"]),
@@ -437,7 +536,7 @@ pub fn run(ctx: &Ctx) -> i32 {
             let mut out = merge_outcomes(c, a);
             out.rule.push_str(" || (b, E3 compile units) fam_msg programs edited so that exactly two parts expose one shared wire name for one kind (same name, or the near-collision foo1 / foo_1; contract/interface and interface/interface; first / last position): cargo check must fail with `Message overlaps between interface and contract impl`; the unedited twin must compile.");
             crate::e3props::run_probes(ctx, "units_c05", crate::e3props::c05b_probes(ctx), None, &mut out);
-            out
+            with_fuzz(ctx, out, "fz_merge", "bytes -> up to 6 sorted duplicate-free lists of arbitrary strings -> assert_no_intersection panics iff naive intersection is non-empty.")
         }
         "C11" => {
             let b = msg_family(ctx, true, "fam_msg_s2",
@@ -472,9 +571,9 @@ pub fn run(ctx: &Ctx) -> i32 {
             crate::e3props::run_probes(ctx, "units_c19", crate::e3props::c19b_probes(ctx), None, &mut out);
             out
         }
-        "C20" => runtime_prop(ctx, "C20",
+        "C20" => with_fuzz(ctx, runtime_prop(ctx, "C20",
             "arbitrary address strings (plain, bech32-like, quotes, control characters, Unicode) x Remote<T> for T in {a struct, (), unsized str, dyn Trait<Error=.., Param=..> with two different bindings} x owned / borrowed: to_json_string parsed == {\"addr\": s} with exactly one member; identical bytes and identical schema_for! across all T; schema titled Remote with the single required property addr; from_json of the model's own text gives a handle whose as_ref() is the address; update_admin / clear_admin address the handle's contract. Non-trivial = every distinct address (classes: needs JSON escaping / plain).",
-            &["type parameters are local stand-ins (the encoding must not depend on them)"]),
+            &["type parameters are local stand-ins (the encoding must not depend on them)"]), "fz_remote", "bytes -> address string -> encode / literal shape / decode across three parameterisations."),
         "C07" => reply_family(ctx, true, "fam_reply",
             "fam_reply programs; `cases` replies per program: every declared id and ids belonging to no handler, Ok(SubMsgResponse{0..3 events, data by class, 0..2 msg responses}) / Err(text), any gas_used, payload built by the generated sub-message builder or garbage; through sv::dispatch_reply and the generated reply entry point; reference model computed from the program model: covered outcome => exactly the declared method runs once with the documented arguments and context (gas, env, storage; events/msg responses for success methods), uncovered success => events+data passed through, uncovered failure => that error as the contract's error, unknown id / undecodable payload => error and no handler. Non-trivial = uncovered outcome or an `always` handler.",
             &[A_ECHO, A_NATIVE, A_REPLY, "valid payload bytes are obtained from the generated builder (its agreement with dispatch is C08)"]),
@@ -486,9 +585,9 @@ pub fn run(ctx: &Ctx) -> i32 {
             crate::e3props::run_probes(ctx, "units_c08", crate::e3props::c08_probes(), None, &mut out);
             out
         }
-        "C09" => reply_family(ctx, true, "fam_reply",
+        "C09" => with_fuzz(ctx, reply_family(ctx, true, "fam_reply",
             "fam_reply programs; for every success handler `cases` replies whose data is drawn from the classes absent / well-formed / envelope-malformed (length overrun, wrong wire type, oversized varint, truncated) / JSON-malformed (wrong type, truncated, trailing bytes) / envelope without inner data / envelope of the other kind / random bytes; expected outcome from the data-mode table in the rustdoc of `contract`, using an independent protobuf writer, cw_utils' parsers as the envelope reference and the data type's own serde impl; any failure must be Err with an empty call log. Non-trivial = handler with a data marker (distinct by row, data bytes).",
-            &[A_ECHO, A_NATIVE, A_REPLY, "the cell `opt` marker + well-formed envelope without inner data is not specified by the documentation: either None delivered or a missing-data error is accepted"]),
+            &[A_ECHO, A_NATIVE, A_REPLY, "the cell `opt` marker + well-formed envelope without inner data is not specified by the documentation: either None delivered or a missing-data error is accepted"]), "fz_replydata", "bytes -> SubMsgResponse.data (absent / raw / wrapped in a well-formed execute or instantiate envelope) -> each of the six data-mode handlers must behave as the documented table says (reference: cw_utils parsers + serde), failures without invoking the handler."),
         "C10" => msg_family(ctx, true, "fam_msg_s2",
             "for every exec / query method of the contract and of each interface (handle typed by the concrete contract and by `dyn Interface<..>`): `cases` tuples (argument values, address, funds set/unset); Remote::executor()[.with_funds]..build() must equal WasmMsg::Execute{addr, funds, body} and the body, fed to the target's generated execute entry point, must run that same method with equal arguments (C02 call-log oracle); the query helper must issue exactly one WasmQuery::Smart to the handle's address whose body the query entry point routes to the same method, and return the decoded handler response; InstantiateBuilder with random label/admin/funds/salt options is compared field by field and its body fed to the instantiate entry point. Non-trivial = method with arguments and non-empty funds, an interface-typed (`dyn`) handle, or >=2 builder options.",
             &[A_ECHO, A_SERDE, A_NATIVE, A_DOMAIN, "Remote::update_admin / clear_admin are covered by the C20 runtime check"]),
